@@ -3,6 +3,7 @@
 //! request lines are then piped to `vmodel <domain>` (Lean) by `/verif/check`.
 mod rng;
 mod util;
+mod dom_pipeline;
 mod dom_store;
 
 fn main() {
@@ -14,6 +15,17 @@ fn main() {
     let opts = util::Opts::parse(&args[1..]);
     let rc = match args[0].as_str() {
         "store" => dom_store::main(&opts),
+        "pipeline" => dom_pipeline::main(&opts),
+        "hash" => {
+            // content hashes exactly as the incremental cache computes them
+            for f in &opts.rest {
+                match std::fs::read(f) {
+                    Ok(d) => println!("{} {}", veryl_cache::content_hash(&d), f),
+                    Err(_) => println!("- {}", f),
+                }
+            }
+            0
+        }
         x => {
             eprintln!("hx: unknown domain {x}");
             2
